@@ -415,3 +415,22 @@ def _exact_proofs(c, prog):
         ok = a[0] == "arg1" and a[1] == "arg2" and a[2] == "arg4" and "Generator::new_unblinded(arg2, issuance::AssetId::into_tag(arg3))" in a[3]
         detail = "args %s" % a
     c.inst("R5.asset-proof-binding", "verify(secp, asset_comm, [unblinded generator of asset])", ok, detail, fa.where(), fa.path)
+    # the verdict is the verifier's verdict: every reachable definition of the return place is the destination of the
+    # SurjectionProof::verify call (or a value whose provenance is that call), or the constant false — never a constant
+    # true or a comparison that bypasses the proof (seed C05-9: `if asset_commit == gen { return true }`)
+    fb = fa.body
+    pa = Prov(fb)
+    rows = []
+    for (bi, si, kind, pay) in fb.defs().get(0, []):
+        if bi not in fb.reachable() or fb.blocks[bi]["cleanup"]:
+            continue
+        if kind == "call":
+            rows.append("call " + callee_name(pay))
+        elif kind == "assign":
+            rows.append(show(pa._rvalue(pay["rv"], True), -20))
+        else:
+            rows.append(kind)
+    good = [r for r in rows if (r.startswith("call ") and re.search(r"SurjectionProof::verify$", r)) or r.startswith("secp256k1_zkp::SurjectionProof::verify(")]
+    ok = len(good) >= 1 and all(r in good or r == "0" for r in rows)
+    c.inst("R5.asset-proof-verdict", "the result is SurjectionProof::verify's result on every path (or false); no path answers true without the proof",
+           ok, "return-place definitions %s" % rows, fa.where(), fa.path)
